@@ -34,17 +34,17 @@ BOUNDS = (
     "Canonical RDATA: every dnspython type that embeds a domain name (NS CNAME PTR DNAME SOA MX AFSDB RT KX RP "
     "PX SRV NAPTR SIG RRSIG | NSEC LP HIP IPSECKEY AMTRELAY SVCB HTTPS NSAP-PTR DSYNC TKEY TSIG CH-A) plus 27 "
     "name-free types and an unknown type, built from an independent layout table with upper/lower/boundary "
-    "octets (0x40 0x5B 0x60 0x7B, >=0x80) in every name, absolute and relative-to-origin; quick 60 / thorough "
+    "octets (0x40 0x5B 0x60 0x7B, >=0x80) in every name, absolute and relative-to-origin; quick 100 / thorough "
     "600 seeded rdatas per type. (MD MF MB MG MR MINFO NXT A6 are not implemented by dnspython and are handled as "
     "opaque RFC 3597 data; not judged.) RRSIG signing input: seeded RRsets of all those types, every label count "
     "0..n+1 for owners of 0..5 labels incl. wildcard owners, absolute and relative (owner, signer, rdata) forms; "
-    "quick 1200 / thorough 12000. Key tags: all algorithms incl. RSAMD5, key lengths 0..300 incl. odd and carry-heavy "
+    "quick 2500 / thorough 12000. Key tags: all algorithms incl. RSAMD5, key lengths 0..300 incl. odd and carry-heavy "
     "keys; DS/CDS: SHA-1/256/384 via every entry point; NSEC3: salts 0..255 octets, iterations 0..150 (thorough "
-    "2500); ZONEMD SIMPLE with SHA-384/512 on seeded zones (quick 100 / thorough 800) with apex ZONEMD, its RRSIG, "
+    "2500); ZONEMD SIMPLE with SHA-384/512 on seeded zones (quick 200 / thorough 800) with apex ZONEMD, its RRSIG, "
     "non-apex ZONEMD, glue and occluded names; type bitmaps: exhaustive single types 0..65535 in thorough (quick: "
     "window edges) + seeded sets. NSEC chain: exhaustive enumeration of all layouts of a 6-name universe (quick: "
     "5-name; each name absent / data / delegation / delegation with DS / delegation with address at the cut owner) "
-    "x {relativized, absolute} x apex variants, plus seeded zones (quick 250 of up to 12 names / thorough 3000 of up to 25 names) with nested cuts, wildcards, "
+    "x {relativized, absolute} x apex variants, plus seeded zones (quick 500 of up to 12 names / thorough 3000 of up to 25 names) with nested cuts, wildcards, "
     "empty non-terminals and mixed case."
 )
 
@@ -956,7 +956,7 @@ def run(R):
     quick = R.quick
 
     # ---------------------------------------------------------------- 1. canonical RDATA per type
-    per_type = 60 if quick else 600
+    per_type = 100 if quick else 600
     origin = [b"Example", b"COM"]
     for tname in [t[0] for t in TYPES_WITH_NAMES] + [t[0] for t in TYPES_NO_NAMES]:
         if R.deadline():
@@ -970,7 +970,7 @@ def run(R):
                 sample={"type": tname, "wire": rd["wire"].hex()[:80]} if s == 1 else None)
 
     # ---------------------------------------------------------------- 2. canonical RRset order
-    n_order = 150 if quick else 3000
+    n_order = 400 if quick else 3000
     all_types = [t[0] for t in TYPES_WITH_NAMES if t[1] == IN] + [t[0] for t in TYPES_NO_NAMES]
     for s in range(n_order):
         if R.deadline():
@@ -991,7 +991,7 @@ def run(R):
         _do(R, "order", {"rds": rds}, "C15.rrset_canonical_order", s, sample={"type": tname, "n": len(rds)})
 
     # ---------------------------------------------------------------- 3. RRSIG signing input
-    n_sig = 1200 if quick else 12000
+    n_sig = 2500 if quick else 12000
     sig_types = [t[0] for t in TYPES_WITH_NAMES if t[1] == IN] + ["A", "AAAA", "TXT", "DS", "DNSKEY", "TYPE65280", "NSEC3"]
     s = 0
     while s < n_sig and not R.deadline():
@@ -1031,7 +1031,7 @@ def run(R):
             s += 1
 
     # ---------------------------------------------------------------- 4. key tags and DS digests
-    n_keys = 150 if quick else 3000
+    n_keys = 440 if quick else 3000
     algs = (1, 3, 5, 7, 8, 10, 13, 14, 15, 16, 253)
     for s in range(n_keys):
         if R.deadline():
@@ -1077,7 +1077,7 @@ def run(R):
         _do(R, "bitmap", {"types": types}, "C15.type_bitmap", ("set", s), sample={"types": types})
 
     # ---------------------------------------------------------------- 7. ZONEMD
-    n_z = 100 if quick else 800
+    n_z = 200 if quick else 800
     for s in range(n_z):
         if R.deadline():
             break
@@ -1120,7 +1120,7 @@ def run(R):
                 rrs.append({"owner": [], "rd": gen_rdata(rng, t), "ttl": 300})
             c = {"origin": origin, "rrs": rrs, "soa_serial_wire": serial, "relativize": relz, "signer": "recorder"}
             _do(R, "nsec", c, "C15.nsec_chain", ("apex", relz, extra), sample={"layout": "apex only", "relativize": relz})
-    n_nz = 250 if quick else 3000
+    n_nz = 500 if quick else 3000
     for s in range(n_nz):
         if R.deadline():
             break
